@@ -4,6 +4,7 @@
 //   extract <shape> <mesh> <graph>                  all patches of an explicit elements-at-rank graph (level 0)
 //   refine  <shape> <depth> <meshX> <graph>         same, then <depth> joint refinements of base node and patch nodes
 //   split   <shape> <mesh> <graph> <l_0>..<l_D>     a base-mesh mesh part (target lists) split among all patches
+//   hsplit  <shape> <mesh> <graph> <child list>     two-level partition; inter-parent halos split among the children
 //   p2l     <shape> <num_elems> <num_ranks>         Parti2Lvl decision logic + build_elems_at_rank
 //   auto    <shape> <kind> <ranks> <depth> <meshX>  built-in partitioner (kind 0 = Parti2Lvl, 1 = PartiIterative),
 //                                                   extraction of every patch, <depth> joint refinements
@@ -20,6 +21,7 @@
 #include <kernel/geometry/mesh_node.hpp>
 #include <kernel/geometry/parti_2lvl.hpp>
 #include <kernel/geometry/parti_iterative.hpp>
+#include <kernel/geometry/patch_halo_splitter.hpp>
 #include <kernel/util/dist.hpp>
 
 #include <memory>
@@ -228,6 +230,78 @@ struct Run
         else show_target_sets(o, *sp);
       }
     }
+    else if(op == "hsplit")
+    {
+      // two-level (recursive) partitioning in one process: parents = ranks of the graph; every base cell carries the
+      // index of its child patch inside its parent.  The inter-parent halos are split among the children with the real
+      // PatchHaloSplitter (split / serialize / intersect), exactly the calls of _split_basemesh_halos without the MPI
+      // transport of the serialized buffers.
+      auto mesh = read_mesh(c, false);
+      Adjacency::Graph g = read_graph(c);
+      auto child_of = c.idxlist();
+      const Index num_par = g.get_num_nodes_domain();
+      std::unique_ptr<NodeType> base = NodeType::make_unique(std::move(mesh));
+      std::vector<std::unique_ptr<NodeType>> par(num_par);
+      std::vector<Index> num_child(num_par, 0);
+      for(Index a = 0; a < num_par; ++a)
+      {
+        std::vector<int> comm;
+        par[a] = base->extract_patch(comm, g, int(a));
+        // elements-at-child graph of the parent patch (local cell numbers, ascending)
+        const auto& cells = base->get_patch(int(a))->template get_target_set<D>();
+        for(Index i = 0; i < cells.get_num_entities(); ++i)
+          num_child[a] = std::max(num_child[a], Index(child_of.at(cells[i])) + 1);
+        std::vector<Index> ptr(1, 0), idx;
+        for(Index ch = 0; ch < num_child[a]; ++ch)
+        {
+          for(Index i = 0; i < cells.get_num_entities(); ++i)
+            if(Index(child_of.at(cells[i])) == ch) idx.push_back(i);
+          ptr.push_back(Index(idx.size()));
+        }
+        Adjacency::Graph ga(num_child[a], cells.get_num_entities(), Index(idx.size()), ptr.data(), idx.data());
+        for(Index ch = 0; ch < num_child[a]; ++ch)
+          par[a]->create_patch_meshpart(ga, int(ch));
+      }
+      // one splitter per (parent, child); all base-mesh halos of the parent are added
+      typedef Geometry::PatchHaloSplitter<MeshType> SplitterType;
+      std::vector<std::vector<std::unique_ptr<SplitterType>>> spl(num_par);
+      for(Index a = 0; a < num_par; ++a)
+        for(Index ch = 0; ch < num_child[a]; ++ch)
+        {
+          spl[a].emplace_back(new SplitterType(*par[a]->get_mesh(), *par[a]->get_patch(int(ch))));
+          for(const auto& h : par[a]->get_halo_map())
+            spl[a].back()->add_halo(h.first, *h.second);
+        }
+      o << "HS " << num_par;
+      for(Index a = 0; a < num_par; ++a)
+      {
+        o << " P " << num_child[a];
+        for(Index ch = 0; ch < num_child[a]; ++ch)
+        {
+          o << " K";
+          show_target_sets(o, *par[a]->get_patch(int(ch)));
+          std::ostringstream hs; Index nh = 0;
+          for(const auto& h : par[a]->get_halo_map())
+          {
+            const Index b = Index(h.first);
+            for(Index dh = 0; dh < num_child[b]; ++dh)
+            {
+              // what child dh of parent b would send about its part of the halo b->a
+              if(spl[b][dh]->add_halo(int(a), *par[b]->get_halo(int(a))) == std::size_t(0))
+                continue;
+              std::vector<Index> buffer = spl[b][dh]->serialize_split_halo(int(a), int(dh));
+              if(!spl[a][ch]->intersect_split_halo(int(b), buffer, Index(0)))
+                continue;
+              std::unique_ptr<PartType> hp = spl[a][ch]->make_unique();
+              hs << " " << b << " " << dh;
+              show_target_sets(hs, *hp);
+              ++nh;
+            }
+          }
+          o << " H " << nh << hs.str();
+        }
+      }
+    }
     else if(op == "p2l")
     {
       Index num[D + 1];
@@ -282,7 +356,7 @@ static void handle(const verif::Tokens& t, std::ostream& o)
 {
   Cur c(t);
   std::string op = c.str();
-  if(op != "extract" && op != "refine" && op != "p2l" && op != "auto" && op != "split") { o << "BAD-OP"; return; }
+  if(op != "extract" && op != "refine" && op != "p2l" && op != "auto" && op != "split" && op != "hsplit") { o << "BAD-OP"; return; }
   std::string shape = c.str();
   if(shape == "h1") Run<Shape::Hypercube<1>>::handle(op, c, o);
   else if(shape == "h2") Run<Shape::Hypercube<2>>::handle(op, c, o);
